@@ -1,7 +1,7 @@
 (* C06 — every dataset in a collection carries exactly one subset per subset group.
    Statements only; proofs are in Lemmas*.v.  `Inv` (the property) and the model are in Model.v. *)
 From Coq Require Import ZArith List Bool.
-From GV Require Import C06.Model C06.Lemmas C06.Examples.
+From GV Require Import gen.Gen_groups C06.Model C06.Lemmas C06.GenEquiv1 C06.GenEquiv2 C06.GenEquiv C06.GenDelay1 C06.GenDelay2 C06.GenDelay C06.Examples.
 Import ListNotations.
 Open Scope Z_scope.
 
@@ -43,3 +43,53 @@ Theorem counts : forall pool ncol ops,
   (forall g, In g (groups st) -> length (gsubs st g) = length (coll st)).
 Proof. exact Lemmas.counts. Qed.
 Print Assumptions counts.
+
+(* ---------- the TRANSLATED functions (coq/gen/Gen_groups.v: regenerated from glue/core/{subset_group,data_collection,data,subset,hub}.py on every run) ----------
+   heap / bop / bstep / ginit / HInv are in Model.v and gen/Gen_groups.v; Rel (same collection, hub idle, exactly the live groups subscribed
+   with entry's handlers) and hop are in GenEquiv.v; entry (the two subscriptions of a group) is in GenEquiv2.v; Core is the inductive invariant. *)
+
+(* on every related pair of states that satisfies the invariant, each translated operation makes the step of the hand model *)
+Theorem gen_refines_model : forall h st o, Rel h st -> Core st -> is_extend o = false ->
+  Rel (bstep h o) (step st (hop o)).
+Proof. exact GenEquiv.gen_refines_model. Qed.
+Print Assumptions gen_refines_model.
+
+(* the property after every history of the translated append / remove / new_subset_group / remove_subset_group / clear / extend *)
+Theorem gen_inv_reachable : forall pool ncol ops, HInv (fold_left bstep ops (ginit pool ncol)).
+Proof. exact GenEquiv.gen_inv_reachable. Qed.
+Print Assumptions gen_inv_reachable.
+
+(* every heap the translated machine reaches is related to a state of the hand model that satisfies Core and Inv *)
+Theorem gen_reachable_sim : forall pool ncol ops,
+  exists st, Rel (fold_left bstep ops (ginit pool ncol)) st /\ Core st /\ Inv st.
+Proof. exact GenEquiv.gen_reachable_sim. Qed.
+Print Assumptions gen_reachable_sim.
+
+(* SubsetGroup.register_to_hub subscribes the group to exactly the two collection messages, Add -> _add_data, Delete -> _remove_data,
+   after the groups subscribed before it *)
+Theorem gen_subscriptions : forall g gs h, h_subs h = map entry gs -> ~ In g gs ->
+  h_subs (SubsetGroup_register_to_hub g h) = map entry (gs ++ [g]) /\
+  (forall d, find_handlers (DataCollectionAddMessage d) (SubsetGroup_register_to_hub g h)
+             = map (fun x => (x, H__add_data)) (gs ++ [g])) /\
+  (forall d, find_handlers (DataCollectionDeleteMessage d) (SubsetGroup_register_to_hub g h)
+             = map (fun x => (x, H__remove_data)) (gs ++ [g])).
+Proof. exact GenEquiv.gen_subscriptions. Qed.
+Print Assumptions gen_subscriptions.
+
+(* SubsetGroup._add_data does nothing for a dataset the group already has a subset for *)
+Theorem gen_add_data_guard : forall h g d, In d (map snd (h_gsubs h g)) -> SubsetGroup__add_data g d h = h.
+Proof. exact GenEquiv.gen_add_data_guard. Qed.
+Print Assumptions gen_add_data_guard.
+
+(* the property after every history of translated operations, single or grouped in blocks `with dc.hub.delay_callbacks(): ...`
+   (gstep (GDelayed ops) = hub_resume . ops . hub_pause: the collection messages wait in the queue and are delivered, in order,
+   to the groups subscribed at that moment, when the block is left) *)
+Theorem gen_inv_delayed : forall pool ncol ops, HInv (fold_left gstep ops (ginit pool ncol)).
+Proof. exact GenDelay.gen_inv_delayed. Qed.
+Print Assumptions gen_inv_delayed.
+
+(* in particular one block of any operations, entered from any reachable heap, leaves the property restored *)
+Theorem gen_block_restores : forall pool ncol ops blk,
+  HInv (hub_resume (fold_left bstep blk (hub_pause (fold_left gstep ops (ginit pool ncol))))).
+Proof. exact GenDelay.gen_block_restores. Qed.
+Print Assumptions gen_block_restores.
